@@ -385,6 +385,8 @@ func (g *Gen) someID(max uint64) uint64 {
 		return ^uint64(0)
 	case max == 0:
 		return 1
+	case max >= 1<<62:
+		return max - uint64(g.pick(4))
 	}
 	return 1 + uint64(g.R.Int63n(int64(max)))
 }
@@ -1254,6 +1256,23 @@ func (g *Gen) Block() error {
 	}
 	if s.Halted != "" {
 		return nil
+	}
+	// identifier counters moved forwards to the width boundaries of the 8-byte identifiers (`jump`): everything
+	// after it runs with large identifiers in every id-keyed record, index and queue entry
+	jumpP := 0.0
+	switch g.Profile {
+	case "genesis", "extreme":
+		jumpP = 0.07
+	case "lifecycle":
+		jumpP = 0.03
+	}
+	if g.chance(jumpP) {
+		mod := []string{"plan", "subscription", "session"}[g.pick(3)]
+		vals := []uint64{254, 255, 256, 65535, 65536, 1<<24 - 1, 1<<32 - 2, 1<<32 - 1, 1 << 32, 1<<32 + 1, 1 << 40, 1<<53 + 1, 1<<56 - 1, 1 << 56, 1<<63 - 3}
+		if err := g.line("jump module=%s n=%d", mod, vals[g.pick(len(vals))]+uint64(g.pick(3))); err != nil {
+			return err
+		}
+		g.Stats["jump"]++
 	}
 	n := g.pick(7)
 	for i := 0; i < n; i++ {
